@@ -56,13 +56,20 @@ def bytes_and_orders(ctx, res):
                 st = [(what if i == pos else "%s @%sx%d P.%d" % (hp, "r," if i else "", 4 if i + 1 == n else 0, i)) for i in range(n)]
                 exp = 4 if pos != n - 1 else (0 if what == "alias" else 127)
                 cases.append(("position", " | ".join(st), n - 1, 0, exp, pos))
+    # slow first stage | ... | last stage kills itself at once: the shell must not resume before the slow stage has ended
+    # (the probe afterwards reads the 5 bytes the slow stage writes to a file at its very end), status = 128 + signal
+    for n in (2, 3):
+        for sig in (9, 13, 15):
+            st = ["%s @s300,e5 P.0 2> slow.txt" % hp] + ["%s @r P.%d" % (hp, i) for i in range(1, n - 1)] + ["%s @k%d P.%d" % (hp, sig, n - 1)]
+            cases.append(("slowkill", " | ".join(st), n, 0, 128 + sig, sig))
     bad = 0
     for kind, body, n, sz, status, extra in cases:
         work = tempfile.mkdtemp(prefix="c02b_")
         try:
             F.setup_work(work, ())
             t0 = time.time()
-            rc, recs = F.run_real(ctx.cicada, "%s ; %s @x$? S.0" % (body, hp), work, timeout=60)
+            probe = "%s @r,x$? S.0 < slow.txt" % hp if kind == "slowkill" else "%s @x$? S.0" % hp
+            rc, recs = F.run_real(ctx.cicada, "%s ; %s" % (body, probe), work, timeout=60)
             dt = time.time() - t0
         finally:
             shutil.rmtree(work, ignore_errors=True)
@@ -83,6 +90,13 @@ def bytes_and_orders(ctx, res):
                 if got != exp:
                     probs.append("stage %d received %s, upstream wrote %s" % (i, got, exp))
         got = recs.get("S.0", {}).get("argv", [None, None])[1]
+        if kind == "slowkill":
+            seen = recs.get("S.0", {}).get("stdin")
+            if not (seen or "").startswith("5:"):
+                probs.append("the shell resumed before the slow first stage had ended (the probe saw %r of its 5 final bytes)" % seen)
+            if dt < 0.28:
+                probs.append("the pipeline returned after %.2f s although its first stage sleeps 0.3 s" % dt)
+            got = (got or "").replace("@r,x", "@x")
         if got != "@x%d" % status:
             probs.append("status %s, last stage ended with %d" % (got, status))
         if probs:
